@@ -5,7 +5,7 @@ ROOT = os.path.dirname(os.path.dirname(os.path.abspath(__file__)))
 
 CHECKS = {
  'C01': dict(engine='tapecheck+refdiff', technique='property-based differential testing against the Fortran reference (generated deviate tapes, threshold-dictionary steering, shrinking)',
-   text='Generated-input differential search: every one of the 61 reference background nuclides is driven from the same generated deviate tape through the C++ port and through the Decay0 2020-04-20 Fortran reference (compiled from the repo\'s own copy); events are compared particle by particle. Exploration, not proof: assurance is bounded by the tapes generated (threshold-dictionary steering reaches every branch bracket of the reference text with equal probability).',
+   text='Generated-input differential search: every one of the 61 reference background nuclides is driven from the same generated deviate tape through the C++ port and through the Decay0 2020-04-20 Fortran reference (compiled from the repo\'s own copy); events are compared particle by particle. Every second case is preceded, on the port side, by a steered event of another nuclide (the reference is pure, so state carried from one nuclide to the next meets it). Exploration, not proof: assurance is bounded by the tapes generated (threshold-dictionary steering reaches every branch bracket of the reference text with equal probability).',
    note='Trusted base: gfortran -fdefault-real-8 build of the reference; CERNLIB kernels bound to the port\'s kernels (checked separately in C16); constants rule (a mismatch is excused iff the port agrees with the reference flavour whose pi/2pi/fermi-mass constants are at double precision); knife-edge rule; tolerances 5e-7 (momentum) and 1e-9 (time).', ref='4 C01, 3'),
  'C02': dict(engine='tapecheck+refdiff', technique='property-based differential testing against the Fortran reference over the (isotope, level, mode, window) grid',
    text='Generated-input differential search over double-beta configurations accepted by the reference: initialisation (ier, toallevents, level energy, spin, deviates consumed) and N generated events per configuration are compared with the Fortran reference driven from the same tapes. Quick tier samples the grid stratified (every mode of every isotope at level 0, one accepted cell per excited level); thorough tier enumerates every (isotope, level, mode) and four window classes. In both tiers every de-excitation routine <Nuclide>low is additionally called directly on both sides for every entry level the reference tabulates (cascade-level differential, 30 000 / 2 000 000 steered tapes per (routine, level)).',
@@ -14,7 +14,7 @@ CHECKS = {
    text='Generated configurations (isotope, level, mode, window class) accepted by decay0_generator and steered tapes; every event is checked against an oracle that is independent of the port: Q-values from the reference table, level energies from the README appendix, window bounds, toallevents >= 1 and monotone under nested windows.',
    note='Tolerance 3 keV (tabulated-energy rounding), 1e-6 MeV on window bounds (float storage). Follow-up alpha chains of Bi214/Pb214/Po218/Rn222 are not part of the budget. gA modes are exercised in C14.', ref='4 C03'),
  'C04': dict(engine='tapecheck+gencheck', technique='property-based testing with a validity predicate over tail-steered deviate tapes',
-   text='All 69 published background names and the accepted double-beta configurations are shot through decay0_generator from tapes steered into the extreme tails (1e-12, 1-1e-12) and onto the reference branching thresholds; each event must satisfy the well-formedness predicate and each shot must stay within 20000 deviates.',
+   text='All 69 published background names and the accepted double-beta configurations are shot through decay0_generator from tapes steered into the extreme tails (1e-12, 1-1e-12) and onto the reference branching thresholds; each event must satisfy the well-formedness predicate and each shot must stay within 20000 deviates. Every de-excitation routine is additionally called directly for every entry level (cascade-level pass), and a targeted search (hill climbing on the tape, objective = particles in the event) looks for runaway cascades in every background nuclide.',
    note='The deviate budget (20000) is a harness bound far above the observed maximum (<300); exceeding it is reported as unbounded work.', ref='4 C04'),
  'C05': dict(engine='tapecheck+gencheck', technique='property-based differential testing against a hand-written name->scheme composition table; exhaustive catalogue comparison',
    text='For every published background name the event produced by genbbsub is compared bit for bit with the composition of the nuclide\'s own public scheme functions on the same tape; every pair of names where one is a prefix of the other is checked against concatenation; README lists, .lis files, API sets, mode tables and a universe of 49400 candidate names are compared completely.',
@@ -26,7 +26,7 @@ CHECKS = {
    text='rapidcheck-generated histories over a pool of generators and event objects, each in its own forked child; at every shot the event must be bit-identical (deviate count included) to what a PRISTINE PROCESS (forked before any library call) produces with a fresh generator and a fresh event from the same tapes. Plus one marathon history per shard (one generator per configuration, tens of thousands of shots hopping between them, minimised by delta debugging) and deep single-instance histories (6000 warm-up shots, then 3000 tapes shot by the warmed instance and by its cold twin forked right after initialize()).',
    note='~130 configurations: 21 hand-picked (angular correlations, deep cascades, chains, windows, 4b, b+ modes), every published background name, two double-beta entries per legacy mode, 36 momentum-direction-lock variants; thorough tier repeats under ASan/UBSan.', ref='4 C07'),
  'C08': dict(engine='libFuzzer+sanitized drivers', technique='coverage-guided fuzzing (structure-aware libFuzzer target) and property-based drivers run under ASan/UBSan/_GLIBCXX_ASSERTIONS',
-   text='The generation drivers of C04/C05 (incl. the cascade-level pass) and the C10 operation driver are re-run against an ASan+UBSan+_GLIBCXX_ASSERTIONS build and two libFuzzer targets explore (configuration, reuse pattern, MDL operation, tape) and the gA samplers; any sanitizer report is a violation. While a generator is initialised the harness poisons guarded red zones around its fixed-size spectrum tables, so that an index one before / one past a table (which stays inside the object) is reported too.',
+   text='The generation drivers of C04/C05 (incl. the cascade-level pass) and the C10 operation driver are re-run against an ASan+UBSan+_GLIBCXX_ASSERTIONS build and two libFuzzer targets explore (configuration, reuse pattern, MDL operation, tape) and the gA samplers; any sanitizer report is a violation. While a generator is initialised the harness poisons guarded red zones around its fixed-size spectrum tables, so that an index one before / one past a table (which stays inside the object) is reported too. Reads of uninitialised scalars, which no sanitizer available here reports, are decided by a differential: the C04 driver against two builds of the library whose automatic variables start as zero / as a bit pattern must give bit-identical events.',
    note='Sanitizers are the oracle; leak detection is off; documented rejections (exceptions) are not failures.', ref='4 C08'),
  'C09': dict(engine='proto (exhaustive DFS + rapidcheck)', technique='exhaustive enumeration of call sequences up to a fixed length + stateful property-based testing against an explicit protocol model',
    text='All sequences of up to 4 (quick) / 5 (thorough) calls over an alphabet of 28 abstract public calls are enumerated and compared with an explicit model after every step (which calls must raise, every getter, reset == fresh, events and toallevents == fresh instance); a failure-recovery family (valid configuration, spoiling call, refused initialize, repairing call, every 0-2 further calls, initialize, shoot, shoot) is enumerated completely; rapidcheck adds longer sequences with whole-sequence shrinking.',
@@ -41,7 +41,7 @@ CHECKS = {
    text='Seven numerical kernels are compared with closed forms over generated parameters (monomial exactness, analytic integrals, known extrema, polynomial interpolation, independent rotation matrix, independent complex-Gamma evaluation).',
    note='Integrands are restricted to what the non-adaptive 87-point rule can resolve.', ref='4 C16'),
  'C12': dict(engine='threads (forced schedules) + TSan', technique='schedule-controlled concurrency testing: exhaustive and generated interleavings at guarded schedule points, plus free-running ThreadSanitizer runs',
-   text='The harness owns the schedule: guarded schedule points in decay0_gauss serialise the threads in a generated order. All interleavings of 2 threads x 1 call are enumerated (2x2 in the thorough tier), random schedules cover 3 threads and whole generators; a recording GSL handler stands in for the aborting default; results must equal a sequential run. ThreadSanitizer covers everything outside the schedule points.',
+   text='The harness owns the schedule: guarded schedule points in decay0_gauss serialise the threads in a generated order. All interleavings of 2 threads x 1 call are enumerated (2x2 in the thorough tier), random schedules cover 3 threads and whole generators; a recording GSL handler stands in for the aborting default; results must equal a sequential run. A lock-step level hands control over at the deviate requests (every published nuclide, pairs per shared helper routine); free-running levels start the same configuration on 2-4 threads, the four gA configurations together, and gA rejection samplers next to a generator. ThreadSanitizer covers everything outside the schedule points.',
    note='Only the schedule points in gauss.cc are controlled; TSan cannot see the handler pointer inside the uninstrumented libgsl (decided by the forced schedules).', ref='4 C12'),
  'C13': dict(engine='Hypothesis + api_ref + LD_PRELOAD kill shim', technique='property-based differential testing at process level (CLI vs API program), metamorphic re-run, fault injection at every write',
    text='Hypothesis-generated command lines (valid lines with 0-2 mutations) are run through bxdecay0-run; accepted lines are compared record by record with a README-style API program, re-run for byte identity and checked for the completion marker; refused lines must leave no record and no marker; for a sample of accepted lines the process is killed before every write of the run and the marker/completeness invariant is checked. A quarter of the lines also run through the ASan/UBSan build.',
@@ -69,7 +69,7 @@ def main():
     m = {
      'version': 1,
      'setup_cmd': './setup.sh',
-     'hooks': {'guard': 'BXDECAY0_VERIF', 'enable': 'build.sh passes -DBXDECAY0_VERIF in CMAKE_CXX_FLAGS for every variant (san, fuzz, fast, tsan) built from /repo\'s working tree into /verif/build/<variant>',
+     'hooks': {'guard': 'BXDECAY0_VERIF', 'enable': 'build.sh passes -DBXDECAY0_VERIF in CMAKE_CXX_FLAGS for every variant (san, fuzz, fast, tsan, ivz, ivp, cov) built from /repo\'s working tree into /verif/build/<variant>',
                'baseline_off_cmd': './baseline_off.sh', 'source_commits': commits, 'add_only': True},
      'engines': [
        {'name': 'tapecheck', 'path': 'engine/vf.hpp', 'serves_properties': ['C01', 'C02', 'C03', 'C04', 'C05', 'C06', 'C10', 'C12', 'C16', 'C17'], 'kind_free_text': 'own small PBT engine: case = configuration + lazily generated deviate tape (steered by a threshold dictionary harvested from the reference text), shrinking on the tape, replay files'},
